@@ -204,6 +204,52 @@ type naConnState struct {
 	srvDone   bool
 	cliDone   bool
 	echoGot   int
+	cliStream *Stream // the client's end (transport bookkeeping for the discriminator of finding F-ORDER)
+	usedShm   bool    // a Write of this stream went through the shared-memory queue
+	closeViaSocket bool   // the client's close notification went through the socket (queue full)
+	closeRunning   bool
+	qfAtClose      uint64
+	eofEarlyTagged bool
+}
+
+// cliClose closes the client's end and notes whether the notification had to go through the socket.
+func (cs *naConnState) cliClose(st *Stream) {
+	cs.qfAtClose = st.session.stats.queueFullErrorCount
+	cs.closeRunning = true
+	cs.cliClosed = true
+	_ = st.Close()
+	cs.closeRunning = false
+	if st.session.stats.queueFullErrorCount != cs.qfAtClose {
+		cs.closeViaSocket = true
+	}
+}
+
+// switchTags: the writes of the stream (of any stream, when the connection cannot be attributed) used both the queue
+// and the socket - the two channels are not ordered with respect to each other (finding F-ORDER).
+func (w *naWorld) switchTags(cs *naConnState, base map[string]string) map[string]string {
+	t := map[string]string{}
+	for k, v := range base {
+		t[k] = v
+	}
+	sw := func(c *naConnState) bool {
+		if c == nil || c.cliStream == nil || !c.usedShm {
+			return false
+		}
+		viaSocket := c.closeViaSocket || (c.closeRunning && c.cliStream.session.stats.queueFullErrorCount != c.qfAtClose)
+		return c.cliStream.inFallbackState || viaSocket
+	}
+	if cs != nil {
+		if sw(cs) {
+			t["transport_switch"] = "yes"
+		}
+		return t
+	}
+	for _, c := range w.conns {
+		if sw(c) {
+			t["transport_switch"] = "yes"
+		}
+	}
+	return t
 }
 
 type naWorld struct {
@@ -433,7 +479,13 @@ func (w *naWorld) clientStream(sess *Session, cs *naConnState) {
 			binary.BigEndian.PutUint32(b[0:4], 0xC0DE0000|cs.key)
 			binary.BigEndian.PutUint32(b[4:8], uint32(pl.totalBytes()))
 		}
+		cs.cliStream = st
+		wasFallback := st.inFallbackState
 		n, err := st.Write(b)
+		simrt.Event("C key%d Write(%d) -> %d, %v", cs.key, len(b), n, err)
+		if !wasFallback && !st.inFallbackState {
+			cs.usedShm = true // (also when the call failed: the bytes may be in the queue)
+		}
 		if err != nil {
 			break
 		}
@@ -477,8 +529,7 @@ func (w *naWorld) clientStream(sess *Session, cs *naConnState) {
 		}
 	}
 	if pl.CloseBy == 0 || pl.CloseBy == 2 {
-		cs.cliClosed = true
-		_ = st.Close()
+		cs.cliClose(st)
 	} else {
 		// wait for the server's close (bounded)
 		_ = st.SetReadDeadline(time.Now().Add(60 * time.Second))
@@ -489,8 +540,7 @@ func (w *naWorld) clientStream(sess *Session, cs *naConnState) {
 				break
 			}
 		}
-		cs.cliClosed = true
-		_ = st.Close()
+		cs.cliClose(st)
 	}
 }
 
@@ -537,7 +587,31 @@ func (w *naWorld) serveConn(c net.Conn) {
 	}
 	k := binary.BigEndian.Uint32(hdr[0:4])
 	if k&0xffff0000 != 0xC0DE0000 {
-		simrt.Fail("C19.wrong_bytes", "an accepted connection does not start with the first bytes a client stream wrote (%x)", hdr)
+		// the rest of a stream whose server end has already finished (it was told end-of-stream, or closed): data
+		// for a closed stream id re-creates a stream, the protocol has no open message. Not a new client stream;
+		// the application closes it. How the server end came to finish early is judged where it happened.
+		for _, key := range w.order {
+			g := w.conns[key]
+			if !g.srvDone || g.received >= g.written {
+				continue
+			}
+			same := true
+			for j := range hdr {
+				if hdr[j] != naByte(g.key, g.received+j) {
+					same = false
+					break
+				}
+			}
+			if same {
+				simrt.Count("probe.ghost_conn", 1)
+				if !g.eofEarlyTagged {
+					simrt.FailTagged("C19.wrong_bytes", w.switchTags(g, naLostTags(c)), "stream %d: the server was told end-of-stream after %d bytes although the client had written %d successfully; the rest arrived afterwards as a new connection", g.key, g.received, g.written)
+				}
+				_ = c.Close()
+				return
+			}
+		}
+		simrt.FailTagged("C19.wrong_bytes", w.switchTags(nil, naLostTags(c)), "an accepted connection does not start with the first bytes a client stream wrote (%x)", hdr)
 		return
 	}
 	cs := w.conns[k&0xffff]
@@ -576,6 +650,7 @@ func (w *naWorld) serveConn(c net.Conn) {
 		}
 		t0 := simrt.Now()
 		n, err := c.Read(buf)
+		simrt.Event("S key%d Read(%d) -> %d, %v (received %d of %d)", cs.key, len(buf), n, err, cs.received, total)
 		if past {
 			if took := simrt.Now() - t0; took > time.Second {
 				simrt.FailTagged("C19.deadline_ignored", naLostTags(c), "Read issued with an expired deadline blocked for %v (returned %d, %v)", took, n, err)
@@ -603,7 +678,7 @@ func (w *naWorld) serveConn(c net.Conn) {
 		}
 		for i := 0; i < n; i++ {
 			if buf[i] != naByte(cs.key, cs.received+i) {
-				simrt.FailTagged("C19.wrong_bytes", naLostTags(c), "stream %d: byte %d read by the server is not what the client wrote", cs.key, cs.received+i)
+				simrt.FailTagged("C19.wrong_bytes", w.switchTags(cs, naLostTags(c)), "stream %d: byte %d read by the server is not what the client wrote", cs.key, cs.received+i)
 				return
 			}
 		}
